@@ -1,0 +1,26 @@
+//go:build verif
+
+package oned
+
+// Re-exports of unexported check-digit functions for the /verif correspondence harness.
+// Compiled only with `-tags verif`; nothing here changes behaviour.
+
+func VerifGetStandardUPCEANChecksum(s string) (int, error) {
+	return upceanReader_getStandardUPCEANChecksum(s)
+}
+
+func VerifCheckStandardUPCEANChecksum(s string) (bool, error) {
+	return upceanReader_checkStandardUPCEANChecksum(s)
+}
+
+func VerifConvertUPCEtoUPCA(upce string) string { return convertUPCEtoUPCA(upce) }
+
+func VerifCode93ComputeChecksumIndex(contents string, maxWeight int) int {
+	return code93ComputeChecksumIndex(contents, maxWeight)
+}
+
+func VerifCode93CheckChecksums(result []byte) error { return code93CheckChecksums(result) }
+
+func VerifExtension5Checksum(s string) int {
+	return NewUPCEANExtension5Support().extensionChecksum(s)
+}
